@@ -1176,7 +1176,11 @@ func RecordBcast(t *testing.T, rep *Report, tg BcastTarget, tr *Tracer, runs int
 		published.add(1 << 20) // release any receiver still waiting
 		if withTicks {
 			r.tick()
-			r.tick()
+			if !failFirst {
+				// (with a refused first publication one tick is enough to bring the refused message
+				// in by retransmission; every further tick multiplies what trace validation must try)
+				r.tick()
+			}
 			time.Sleep(2 * time.Millisecond)
 		}
 		var live []string
